@@ -165,7 +165,7 @@ class Oracle:
 
 
 class BehaviourReplay:
-    def __init__(self, hist, workdir, oracle, release=False, jobs=1, enumerate_kills=False, seed=0, define=False, prune=True):
+    def __init__(self, hist, workdir, oracle, release=False, jobs=1, enumerate_kills=False, seed=0, define=False, prune=True, kill_override=None):
         self.hist = hist
         self.ws = os.path.join(workdir, "ws")
         self.ctl = os.path.join(workdir, "ctl")
@@ -178,6 +178,8 @@ class BehaviourReplay:
         self.enumerate_kills = enumerate_kills
         self.define = define
         self.prune = prune
+        self.kill_override = kill_override   # event index to use for the first non-script Kill instead of the model's point
+        self.first_kill_events = None        # number of events of the invocation interrupted by the first Kill (from the dry run)
         self.proj = None
         self.violations = []
         self.drift = []
@@ -303,6 +305,10 @@ class BehaviourReplay:
                         self.viol("invocation-failed:dry-run-before-kill", rc=dry.rc, out=dry.out[-3000:])
                         return self
                     idx = None if self.release else find_kill_index(dry.events, paths, nxt["k"], nxt["p"], nxt["at"])
+                    if self.first_kill_events is None:
+                        self.first_kill_events = len(dry.events)
+                        if self.kill_override is not None:
+                            idx = min(self.kill_override, len(dry.events) - 1)
                     if idx is None:
                         if not self.release:
                             self.drift.append("model kill point %s/%s@%s has no counterpart in the real run" % (nxt["k"], nxt["p"], nxt["at"]))
